@@ -173,7 +173,18 @@ func c14CommitteeLen(c phase0.CommitteeIndex) uint64 {
 	return c14LenC1
 }
 
-// signature classes of part 1: selected in both committees / only in committee 1 / in neither.
+// c14CommitteeLenAt is the size of a committee of a slot: committee 0 of the epoch's last slot has one member
+// fewer than in the other slots (127: modulo 7 instead of 8), as happens whenever the number of active validators is
+// no multiple of slots x committees.
+func c14CommitteeLenAt(slot phase0.Slot, c phase0.CommitteeIndex) uint64 {
+	if c == 0 && slot == c14FirstSlot+3 {
+		return c14LenC0 - 1
+	}
+	return c14CommitteeLen(c)
+}
+
+// signature classes of part 1: selected in both committees / only in committee 1 / in neither; under the modulus
+// of the smaller committee 0 of the last slot it is the other way round for the first two.
 var c14SubSigs []phase0.BLSSignature
 var c14SubSigNames = []string{"agg-both", "agg-c1-only", "agg-none"}
 
@@ -182,9 +193,9 @@ func c14InitSubSigs() {
 		return
 	}
 	c14SubSigs = []phase0.BLSSignature{
-		c14FindSig(func(v uint64, _ phase0.BLSSignature) bool { return v%8 == 0 }),
-		c14FindSig(func(v uint64, _ phase0.BLSSignature) bool { return v%8 == 4 }),
-		c14FindSig(func(v uint64, _ phase0.BLSSignature) bool { return v%4 == 1 }),
+		c14FindSig(func(v uint64, _ phase0.BLSSignature) bool { return v%8 == 0 && v%7 != 0 }),
+		c14FindSig(func(v uint64, _ phase0.BLSSignature) bool { return v%8 == 4 && v%7 == 0 }),
+		c14FindSig(func(v uint64, _ phase0.BLSSignature) bool { return v%4 == 1 && v%7 != 0 }),
 	}
 }
 
@@ -320,7 +331,7 @@ func c14SubBody(st *c14SubState, cur phase0.Slot, opt0 int, nVals int, nClasses 
 				Slot:                    v.slot,
 				ValidatorIndex:          v.index,
 				CommitteeIndex:          v.committee,
-				CommitteeLength:         c14CommitteeLen(v.committee),
+				CommitteeLength:         c14CommitteeLenAt(v.slot, v.committee),
 				CommitteesAtSlot:        c14CommitteesAtSlot(v.slot),
 				ValidatorCommitteeIndex: uint64(3 + 5*i),
 			})
@@ -408,7 +419,9 @@ func c14SubCheck(st *c14SubState, r *mc.Result) mc.Verdict {
 	if st.err != nil {
 		return fail("subscribe/error", "Subscribe failed: %v", st.err)
 	}
-	selected := func(x c14Val) bool { return c14IsAggregator(x.sig, c14CommitteeLen(x.committee), c14SubTarget) }
+	selected := func(x c14Val) bool {
+		return c14IsAggregator(x.sig, c14CommitteeLenAt(x.slot, x.committee), c14SubTarget)
+	}
 	anySelected := func(xs []c14Val) bool {
 		for _, x := range xs {
 			if selected(x) {
@@ -451,7 +464,7 @@ func c14SubCheck(st *c14SubState, r *mc.Result) mc.Verdict {
 		}
 		if s.IsAggregator != selected(*x) {
 			return fail("aggregator/selection-mismatch", "the subscription for slot %d committee %d marks validator %d is_aggregator=%v; the specification's rule on its slot signature (hash value %d, committee size %d, target %d) says %v",
-				s.Slot, s.CommitteeIndex, s.ValidatorIndex, s.IsAggregator, c14HashValue(x.sig), c14CommitteeLen(x.committee), c14SubTarget, selected(*x))
+				s.Slot, s.CommitteeIndex, s.ValidatorIndex, s.IsAggregator, c14HashValue(x.sig), c14CommitteeLenAt(x.slot, x.committee), c14SubTarget, selected(*x))
 		}
 		if anySelected(xs) && !s.IsAggregator {
 			return fail("subscribe/selected-aggregator-not-recorded", "slot %d committee %d has a selected aggregator among the validators but the subscription carries validator %d as non-aggregator", s.Slot, s.CommitteeIndex, s.ValidatorIndex)
@@ -496,7 +509,7 @@ func c14SubCheck(st *c14SubState, r *mc.Result) mc.Verdict {
 		}
 		if info.IsAggregator != selected(*x) {
 			return fail("aggregator/selection-mismatch", "the returned subscription info for slot %d committee %d marks validator %d is_aggregator=%v; the specification's rule on its slot signature (hash value %d, committee size %d, target %d) says %v",
-				p.slot, p.committee, x.index, info.IsAggregator, c14HashValue(x.sig), c14CommitteeLen(x.committee), c14SubTarget, selected(*x))
+				p.slot, p.committee, x.index, info.IsAggregator, c14HashValue(x.sig), c14CommitteeLenAt(x.slot, x.committee), c14SubTarget, selected(*x))
 		}
 		if anySelected(xs) && !info.IsAggregator {
 			return fail("subscribe/selected-aggregator-not-recorded", "slot %d committee %d has a selected aggregator among the validators but the returned subscription info carries validator %d as non-aggregator", p.slot, p.committee, x.index)
@@ -1210,12 +1223,12 @@ func c14E2EBody(st *c14E2EState, opt0 int) {
 			continue
 		}
 		d := &apiv1.AttesterDuty{PubKey: a.pubkey(), Slot: v.slot, ValidatorIndex: v.index, CommitteeIndex: v.committee,
-			CommitteeLength: c14CommitteeLen(v.committee), CommitteesAtSlot: c14CommitteesAtSlot(v.slot), ValidatorCommitteeIndex: uint64(3 + 5*i)}
+			CommitteeLength: c14CommitteeLenAt(v.slot, v.committee), CommitteesAtSlot: c14CommitteesAtSlot(v.slot), ValidatorCommitteeIndex: uint64(3 + 5*i)}
 		dp.duties = append(dp.duties, d)
 		if v.slot == c14AggSlot {
 			c := *d
 			slotDuties = append(slotDuties, &c)
-			bits := bitfield.NewBitlist(c14CommitteeLen(v.committee))
+			bits := bitfield.NewBitlist(c14CommitteeLenAt(v.slot, v.committee))
 			bits.SetBitAt(uint64(3+5*i), true)
 			att.out = append(att.out, &phase0.Attestation{AggregationBits: bits, Data: c14AttData(v.committee), Signature: phase0.BLSSignature{byte(i + 1)}})
 		}
@@ -1296,7 +1309,9 @@ func c14E2ECheck(st *c14E2EState, r *mc.Result) mc.Verdict {
 		}
 	}
 	desc := fmt.Sprintf("controller, subscriber and aggregator together; controller started in slot %d, attesting slot %d (all attest); %s", c14AggSlot-1, c14AggSlot, strings.Join(d, "; "))
-	selected := func(x c14Val) bool { return c14IsAggregator(x.sig, c14CommitteeLen(x.committee), c14SubTarget) }
+	selected := func(x c14Val) bool {
+		return c14IsAggregator(x.sig, c14CommitteeLenAt(x.slot, x.committee), c14SubTarget)
+	}
 	var hasSel [2]bool
 	nSel := 0
 	for c := 0; c < 2; c++ {
@@ -1419,7 +1434,7 @@ func init() {
 	hx.Register(&hx.Prop{
 		ID:    "C14",
 		Title: "Future attester duties are all subscribed; every selected aggregator aggregates",
-		Rule: "(sub) real beaconcommitteesubscriber.Subscribe over the real attestationaggregator, epoch of 4 slots, current slot in {last slot of the previous epoch, each slot of the epoch} (called in mid-slot; thorough also at the very start of the slot), 3 validators (thorough also 4) each with no duty or a duty in any (slot, committee in {0,1}) (at most 2 per committee), slot signatures in classes {selected in both committees, selected in committee 1 only, selected in neither}, duties in either order: the submitted subscriptions are exactly one per (slot, committee) with a duty after the current slot, with a validator of that committee, its committees-at-slot and its is_aggregator flag; the returned info covers those pairs, names a selected aggregator where there is one, and carries that validator's signature; " +
+		Rule: "(sub) real beaconcommitteesubscriber.Subscribe over the real attestationaggregator, epoch of 4 slots, current slot in {last slot of the previous epoch, each slot of the epoch} (called in mid-slot; thorough also at the very start of the slot), 3 validators (thorough also 4) each with no duty or a duty in any (slot, committee in {0,1}) (at most 2 per committee), committee sizes 128 / 64 except committee 0 of the last slot (127, i.e. another modulus for the same committee index within one duty answer), slot signatures in classes {selected in both committees, selected in committee 1 only, selected in neither; the first two the other way round under the modulus of the smaller committee}, duties in either order: the submitted subscriptions are exactly one per (slot, committee) with a duty after the current slot, with a validator of that committee, its committees-at-slot and its is_aggregator flag; the returned info covers those pairs, names a selected aggregator where there is one, and carries that validator's signature; " +
 			"(sel) real AggregatorsAndSignatures for committee sizes {1,16,17,128,129}^2 (thorough also ^3 over a boundary subset), TARGET_AGGREGATORS_PER_COMMITTEE in {1,16}, every tuple of a pool of slot signatures whose hash values sit on the selection boundaries (residues 0, 1, m-1; selected under one modulus but not another; top bit set; endianness-sensitive) against the specification's is_aggregator recomputed with crypto/sha256; " +
 			"(agg) real controller (real New, subscription info stored by its own subscribeToBeaconCommittees from a scripted subscriber, decoy info for the neighbouring slots) running AttestAndScheduleAggregate at the slot start, at the attestation delay and one second before the aggregation time, 1-3 validators over committees {0,1}, subscription info per committee in {absent, either validator, with or without aggregator flag}, attestations for every subset, either order: exactly one aggregation job (identified by the Aggregate call it makes when run) per committee whose selected aggregator attested, for that validator with its slot signature and the attestation's data root, at slot start + configured delay; none for committees without a selected aggregator; " +
 			"(e2e) real controller + real subscriber + real aggregator, 3 validators each in {no duty, attested slot committee 0/1, current slot, later slot} x 3 signature classes, all attest: one job per committee of the slot with a specification-selected validator, and the slot's subscriptions submitted; " +
